@@ -321,11 +321,20 @@ def run(run):
     for _ in range(500 if quick else 5000):
         args = [rng.choice(list(ARG_ATOMS)) for _ in range(rng.randint(0, 5))]
         kind = rng.choice(["link", "template", "ext"])
+        # on some pages the same construct also stands as a literal example, disabled by <nowiki/> between its opening
+        # characters: that twin stays text, the live one is still a node with the written arguments (either order)
+        def with_twin(t):
+            if rng.random() < 0.25:
+                twin = t[0] + "<nowiki/>" + t[1:]
+                return (twin + " " + t if rng.random() < 0.5 else t + " " + twin), True
+            return t, False
         if kind == "link":
             args = [a if "[" not in a and "\n" not in a else "l" for a in args]
-            texts.append("[[Target" + "".join("|" + a for a in args) + "]]"); checks.append(("link", ["Target"] + args))
+            t, tw = with_twin("[[Target" + "".join("|" + a for a in args) + "]]")
+            texts.append(t); checks.append(("link", ["Target"] + args) if not tw else ("link-twin", ["Target"] + args))
         elif kind == "template":
-            texts.append("{{tpl" + "".join("|" + a for a in args) + "}}"); checks.append(("template", ["tpl"] + args))
+            t, tw = with_twin("{{tpl" + "".join("|" + a for a in args) + "}}")
+            texts.append(t); checks.append(("template", ["tpl"] + args) if not tw else ("template-twin", ["tpl"] + args))
         else:
             txt = rng.choice(["", "text", "two words", "''i''"])
             texts.append("[http://x.y/p" + (" " + txt if txt else "") + "]"); checks.append(("ext", txt))
@@ -416,9 +425,15 @@ def run(run):
                                      "<%s> with attribute name(s) %r is not recognised as an element" % (exp["tag"], odd), t)
             elif not ok:
                 run.property_failure("c03:html:%s" % exp["tag"], "element <%s> parsed as %s" % (exp["tag"], json.dumps(tree)[:400]), t)
-        elif kind in ("link", "template"):
+        elif kind in ("link", "template", "link-twin", "template-twin"):
+            twin = kind.endswith("-twin")
+            kind = kind.split("-")[0]
             k = "LINK" if kind == "link" else "TEMPLATE"
             ns = [n for n in find_kind(tree, k) if n.get("a") and flat(n["a"][0]) == exp[0]]
+            if twin and len(ns) > 1:
+                run.property_failure("c03:%s:disabled-twin-became-a-node" % kind,
+                                     "the <nowiki/>-disabled copy of the construct was parsed as a node too: %s" % json.dumps(tree)[:300], t)
+                continue
             if not ns:
                 run.property_failure("c03:%s:missing" % kind, "no %s node for %r: %s" % (k, t, json.dumps(tree)[:300]), t)
                 continue
